@@ -16,7 +16,5 @@ Definition golden_fingerprints : list str := [
   [97;54;98;48;52;50;100;55;48;48;57;54;101;99;52;102;102;54;97;102;49;53;57;51;49;99;97;52;53;57;51;53]%N (* default_used_names a6b042d70096ec4ff6af15931ca45935 *);
   [101;98;97;50;54;98;50;99;102;50;56;55;54;56;52;97;56;49;48;55;98;53;53;100;55;98;49;49;56;98;56;54]%N (* default_glob eba26b2cf287684a8107b55d7b118b86 *);
   [100;102;54;53;48;102;48;99;48;55;97;97;99;100;48;54;52;100;56;100;49;55;100;101;98;97;52;97;100;54;98;56]%N (* default_regex df650f0c07aacd064d8d17deba4ad6b8 *);
-  [50;52;48;53;99;101;98;50;50;48;50;101;50;55;52;100;51;54;99;51;50;55;50;48;57;52;98;50;49;57;55;57]%N (* glob 2405ceb2202e274d36c3272094b21979 *);
-  [53;97;50;100;56;98;53;53;101;53;56;102;54;99;48;52;53;102;101;56;49;97;56;53;100;52;51;101;54;57;50;53]%N (* process_nglob_changes 5a2d8b55e58f6c045fe81a85d43e6925 *);
-  [102;51;102;97;53;57;55;56;55;50;99;98;57;48;57;101;52;48;97;49;52;98;101;53;98;57;100;53;102;102;48;102]%N (* rescan_nglobs f3fa597872cb909e40a14be5b9d5ff0f *)
+  [50;52;48;53;99;101;98;50;50;48;50;101;50;55;52;100;51;54;99;51;50;55;50;48;57;52;98;50;49;57;55;57]%N (* glob 2405ceb2202e274d36c3272094b21979 *)
 ].
